@@ -29,11 +29,11 @@ RULE = ('seeded state points on analytic truth motions: |lat|<=80, speed bands <
         'error directions x 2 signs per point; both altitude modes; propagate_errors on evenly, unevenly and two-rate sampled trajectories (every interval then halved), constant and '
         'per-stamp sensor errors; non-trivial = every point (the existing test uses one trajectory, large errors, 12 % tolerance); '
         'distinct = generator parameters')
-ASSUMPTIONS = ['neglected-term table N (per unit time): DR-DR v(1+tan)/R; DV-DR (0.06 + 2 Omega v + v^2 (1+tan^2)/R)/R; DV-PHI (2 Omega + '
+ASSUMPTIONS = ['coarse-step class: absolute limits 16 / 8 / 4 % (2 / 1 / 0.5 s) on the velocity-error prediction of propagate_errors, calibrated on the unchanged tree for that workload (max 6.2 / 3.0 / 1.5 % over 48 runs)', 'neglected-term table N (per unit time): DR-DR v(1+tan)/R; DV-DR (0.06 + 2 Omega v + v^2 (1+tan^2)/R)/R; DV-PHI (2 Omega + '
                'v(1+tan)/R) v; PHI-DR v(1+tan^2)/R^2; plus a velocity-independent baseline of 1 % of every included entry and 0.1 Omega g in DV-PHI; '
                'calibrated on the unchanged tree (max observed ratio of the residual to the bound recorded in the evidence) and frozen before the mutation runs',
                'finite-difference steps 1 km / 1 m/s / 1e-4 rad (1e-6 m is below the ulp of a longitude in degrees)']
-REQUIRED_OBS = ['state_points', 'blocks_checked', 'sensor_blocks_checked', 'points_3d', 'points_2d', 'slow_points', 'fast_points',
+REQUIRED_OBS = ['propagate_coarse_checked', 'coarse_order_decided', 'both_modes_on_one_object', 'state_points', 'blocks_checked', 'sensor_blocks_checked', 'points_3d', 'points_2d', 'slow_points', 'fast_points',
                 'propagate_errors_checked', 'system_matrices_calls', 'propagate_uniform', 'propagate_uneven', 'propagate_two_rate']
 REQUIRED_CLASSES = {'all': ['3d-slow', '3d-fast', '2d-slow', '2d-fast', 'propagate']}
 R0 = 6.37e6
@@ -58,6 +58,8 @@ def cases(seed, tier):
     npp = 16 if tier == 'quick' else 300
     for i in range(npp):
         out.append(dict(seed=int(seed) * 1000003 + 60000 + i, cls='propagate', cost=4))
+        if i % 2 == 0:
+            out.append(dict(seed=int(seed) * 1000003 + 65000 + i, cls='propagate', coarse=True, cost=8))
     return out
 
 
@@ -119,7 +121,19 @@ def run_point(case, out, obs):
             return dict(skipped='pitch > 80')
         P = EP.Propagator(imu, wa)
         S, Sg, Sa, nom = EP.sensitivity(P, pva0)
+        # the other altitude mode looks at the same trajectory object first (and at one row of it as a Pva): neither call may leave a trace in
+        # the object, and the matrices of this mode must not depend on the other having been asked before
+        nom_before = nom.copy()
+        other = error_model.InsErrorModel(not wa)
+        other.system_matrices(nom)
+        other.system_matrices(nom.iloc[len(nom) // 2])
         F, Bg, Ba = em.system_matrices(nom)
+        obs['both_modes_on_one_object'] = obs.get('both_modes_on_one_object', 0) + 1
+        if not nom.equals(nom_before) or list(nom.columns) != list(nom_before.columns):
+            ch = [c for c in nom_before.columns if c not in nom or not np.array_equal(nom[c].values, nom_before[c].values)]
+            out.append(vio('argument_modified', f'system_matrices changed the trajectory handed to it (columns {ch}) - the {"3-D" if wa else "2-D"} model was evaluated after '
+                           f'the {"2-D" if wa else "3-D"} one on the same object'))
+            return {}
         if h == 0.005:
             Phi, Gg, Ga = EP.model_response(F, Bg, Ba, h)
             Fabs = np.abs(F).max(axis=0)
@@ -274,12 +288,78 @@ def run_propagate(case, out, obs):
     return dict(with_altitude=wa, per_stamp=per_stamp, T=T)
 
 
+def run_propagate_coarse(case, out, obs):
+    """propagate_errors at the coarse end of the step range (2 s, 1 s, 0.5 s) on a steady turn with constant sensor errors: the sensor terms are
+    averaged over each step (trapezoid), so its predictions converge with the SQUARE of the step - the change between 1 s and 0.5 s must be
+    well below half the change between 2 s and 1 s (a term taken at one end of the step instead of averaged is first order: ratio 1/2),
+    and the 0.5 s prediction must match the error growth measured through the integrator."""
+    from pyins import error_model, strapdown, sim, transform
+    rng = np.random.Generator(np.random.PCG64(case['seed']))
+    wa = bool(rng.integers(0, 2))
+    T = 40.0
+    m, ex = TM.random_motion(rng, T + 1, lat_range=(-75, 75), speed_max=float(rng.choice([30.0, 200.0])), alt_range=(0, 10000), aggressive=0.3, gentle=True)
+    m.p['heading'][1] = float(rng.choice([-1, 1]) * rng.uniform(0.07, 0.2))          # a steady turn of 4..11 deg/s
+    if not wa:
+        m.p['alt'] = [m.p['alt'][0], 0.0]
+    ge = rng.standard_normal(3) * 2e-5
+    ae = rng.standard_normal(3) * 5e-3
+    pe = pd.Series(np.zeros(9), index=['north', 'east', 'down', 'VN', 'VE', 'VD', 'roll', 'pitch', 'heading'])
+    h = 0.005
+    tt = np.arange(int(round(T / h)) + 1) * h
+    imu = m.imu(tt, 'rate')
+    truth = m.trajectory(tt)
+    im = imu.copy()
+    im[EP.GY] = im[EP.GY].values + ge
+    im[EP.AC] = im[EP.AC].values + ae
+    I = strapdown.Integrator(truth.iloc[0], wa)
+    I.integrate(strapdown.compute_increments_from_imu(im, 'rate'))
+    I0 = strapdown.Integrator(truth.iloc[0], wa)
+    I0.integrate(strapdown.compute_increments_from_imu(imu, 'rate'))
+    measured = transform.compute_state_difference(I.trajectory, I0.trajectory)
+    preds = []
+    for step in (400, 200, 100):
+        tr = I0.trajectory.iloc[::step]
+        terr, _ = error_model.propagate_errors(tr, pe, ge, ae, with_altitude=wa)
+        preds.append(terr.iloc[::400 // step])
+    obs['propagate_coarse_checked'] = 1
+    groups = {'pos': ['north', 'east', 'down'], 'vel': ['VN', 'VE', 'VD'], 'att': ['roll', 'pitch', 'heading']}
+    if not wa:
+        groups = {'pos': ['north', 'east'], 'vel': ['VN', 'VE'], 'att': ['roll', 'pitch', 'heading']}
+    meas = measured.loc[preds[0].index]
+    for g, cols in groups.items():
+        size = np.abs(meas[cols].values).max()
+        d1 = np.abs(preds[0][cols].values - preds[1][cols].values).max()
+        d2 = np.abs(preds[1][cols].values - preds[2][cols].values).max()
+        e3 = np.abs(preds[2][cols].values - meas[cols].values).max()
+        floor = 2e-3 * size + {'pos': 1e-4, 'vel': 1e-6, 'att': 1e-8}[g]
+        for k_, lab_ in enumerate(('2s', '1s', '05s')):
+            ek = np.abs(preds[k_][cols].values - meas[cols].values).max() / max(size, 1e-300)
+            obs[f'max_coarse_rel_{g}_{lab_}_x10000'] = max(obs.get(f'max_coarse_rel_{g}_{lab_}_x10000', 0), int(10000 * ek))
+        obs['coarse_order_decided'] = obs.get('coarse_order_decided', 0) + 1
+        if g == 'vel':
+            # calibrated on the unchanged tree for THIS workload (steady turn 4..11 deg/s, constant sensor errors, no initial error, 40 s): the
+            # velocity prediction deviates by at most 1.5 % / 3.0 % / 6.2 % of the error size at 0.5 / 1 / 2 s steps (Euler position-velocity
+            # coupling); a sensor term taken at one end of the step instead of averaged gives 6.7 / 13 / 27 %
+            for k_, (lab_, lim_) in enumerate((('2 s', 0.16), ('1 s', 0.08), ('0.5 s', 0.04))):
+                ek = np.abs(preds[k_][cols].values - meas[cols].values).max() / max(size, 1e-300)
+                if ek > lim_:
+                    out.append(vio('propagate_errors', f'vel: propagate_errors at a {lab_} step on a steady turn ({np.rad2deg(m.p["heading"][1]):.1f} deg/s) deviates from the error growth '
+                                   f'measured through the integrator by {100 * ek:.1f} % of the error size (calibrated limit {100 * lim_:.1f} %); with_altitude={wa}'))
+                    break
+        bound = 1.5 * d2 + 0.02 * size + {'pos': 1e-4, 'vel': 1e-6, 'att': 1e-8}[g]
+        obs[f'max_coarse_{g}_x1000'] = max(obs.get(f'max_coarse_{g}_x1000', 0), int(1000 * e3 / bound))
+        if e3 > bound:
+            out.append(vio('propagate_errors', f'{g}: propagate_errors at a 0.5 s step differs from the error growth measured through the integrator by {e3:.3e} '
+                           f'(bound {bound:.3e}, error size {size:.3e}); steady turn {np.rad2deg(m.p["heading"][1]):.1f} deg/s, with_altitude={wa}'))
+    return dict(with_altitude=wa, T=T, coarse=True)
+
+
 def run_case(case):
     obs = {}
     out = []
     c0 = patch.COUNTERS['system_matrices_calls']
     try:
-        sample = run_propagate(case, out, obs) if case['cls'] == 'propagate' else run_point(case, out, obs)
+        sample = (run_propagate_coarse(case, out, obs) if case.get('coarse') else run_propagate(case, out, obs)) if case['cls'] == 'propagate' else run_point(case, out, obs)
         obs['system_matrices_calls'] = patch.COUNTERS['system_matrices_calls'] - c0
     except Exception as e:
         import traceback
